@@ -40,9 +40,10 @@ func runC15(cfg *vh.Config) error {
 	distinct := vh.Distinct{}
 
 	type c15case struct {
-		id   int
-		c    *descgen.Case
+		id       int
+		c        *descgen.Case
 		term     string
+		svcs     string
 		req      *Request
 		collides bool
 	}
@@ -50,13 +51,22 @@ func runC15(cfg *vh.Config) error {
 	invalid := 0
 	for len(cases) < n && invalid < 10*n+100 {
 		prof := descgen.Profile{MaxFiles: 3, Supported: true, Comments: r.Chance(40), CrossPkg: len(cases)%3 == 1, OddPkg: len(cases)%13 == 4}
+		if len(cases)%4 == 2 {
+			prof.Services = 70
+		}
 		if len(cases)%8 == 7 {
 			prof.Supported, prof.Wild = false, 5
+		}
+		switch len(cases) {
+		case 2, 10, 18, 26:
+			// crafted split-name collisions (variants 1..4): either the reflection fails (nothing to
+			// round-trip) or the type-confused schemas must still survive the round trip
+			prof.Collide = 1 + len(cases)/8
 		}
 		c := descgen.Generate(r.Fork(fmt.Sprintf("c15-%d-%d", len(cases), invalid)), prof, deps)
 		if len(cases)%8 == 5 {
 			// a valid j5s package compiled by the real compiler (the C02 generator)
-			jc, jerr := descgen.GenerateJ5S(r.Fork(fmt.Sprintf("c15-j5s-%d-%d", len(cases), invalid)))
+			jc, jerr := descgen.GenerateJ5S(r.Fork(fmt.Sprintf("c15-j5s-%d-%d", len(cases), invalid)), len(cases)%16 == 5)
 			if jerr != nil {
 				invalid++
 				res.Count("j5s-package-not-compiled")
@@ -74,6 +84,11 @@ func runC15(cfg *vh.Config) error {
 		term, terr := descgen.DescTerm(files, c.GenPaths())
 		if terr != nil {
 			return terr
+		}
+		svcTerm, nsvc := descgen.ServicesTerm(files)
+		if nsvc > 0 {
+			c.Tags["image-with-services-or-topics"]++
+			c.Tags["services-and-topics"] += nsvc
 		}
 		pkgSeen := map[string]bool{}
 		var allPkgs []string
@@ -127,7 +142,7 @@ func runC15(cfg *vh.Config) error {
 			}
 		}
 		id := len(cases)
-		cases = append(cases, &c15case{id: id, c: c, term: term, collides: splitCollision(files), req: &Request{
+		cases = append(cases, &c15case{id: id, c: c, term: term, svcs: svcTerm, collides: splitCollision(files), req: &Request{
 			ID: id, Prop: "C15", SetB64: base64.StdEncoding.EncodeToString(b), GenPaths: included, Packages: pkgs,
 		}})
 		for t, k := range c.Tags {
@@ -154,6 +169,9 @@ func runC15(cfg *vh.Config) error {
 	evals := 0
 	for _, c := range cases {
 		input := map[string]any{"files": c.c.GenPaths(), "packages": c.req.Packages, "seed": cfg.Seed, "case": c.id, "generated_files_base64": genOnlyB64(c.c)}
+		if c.collides {
+			res.Count("case-with-split-name-collision")
+		}
 		ce, ci := 7, 7
 		first, second := "[]", "[]"
 		for _, o := range obs[c.id] {
@@ -165,9 +183,6 @@ func runC15(cfg *vh.Config) error {
 					in[k] = v
 				}
 				in["step"] = o.Step
-				if c.collides && reConfusion.MatchString(sig+" "+got) {
-					sig = "C15 two descriptors with the same split name (package, names joined by _) -> type confusion in the reader"
-				}
 				res.Fail(vh.Failure{Case: c.id, Stream: o.Step, Sig: sig, Clause: clause, Input: in, Got: got})
 			}
 			bad := o.Class == "panic" || o.Class == "fatal" || o.Class == "timeout"
@@ -234,7 +249,7 @@ func runC15(cfg *vh.Config) error {
 				}
 			}
 		}
-		cf.Terms = append(cf.Terms, fmt.Sprintf("C15Case\n  %s\n  %s\n  %d %s\n  %d %s", c.term, listStr(c.req.Packages), ce, first, ci, second))
+		cf.Terms = append(cf.Terms, fmt.Sprintf("C15Case\n  %s\n  %s\n  %s\n  %d %s\n  %d %s", c.term, c.svcs, listStr(c.req.Packages), ce, first, ci, second))
 		res.Cases = append(res.Cases, vh.CaseRec{Case: c.id, Stream: "roundtrip", Input: input, Impl: summarize(obs[c.id])})
 		if c.id < 3 {
 			res.Sample(map[string]any{"files": c.c.GenPaths(), "features": c.c.Tags, "observed": summarize(obs[c.id])}, 3)
